@@ -12,6 +12,13 @@ THEOREMS = [
     "VK.C02_threshold_hare",
     "VK.C02_droop_bounds",
     "VK.C02_threshold_of_run",
+    "VK.simultaneous_winners_exact",
+    "VK.onebyone_winner_max",
+    "VK.last_group_min",
+    "VK.applyTransfers_fractional_pointwise",
+    "VK.applyTransfers_full",
+    "VK.stvStep_linked",
+    "VK.C02_legal_step",
 ]
 RULE = ("cases = rule in {STV, IRV, SequentialRCV} x profile of untied ranked ballots (2-6 candidates, partial ballots, "
         "zero-vote candidates, unit/int/rational weights) x m x quota x simultaneous x tiebreak x transfer in "
